@@ -198,43 +198,59 @@ def apply(tmp, file, old, new):
     return True, ""
 
 
+def one_case(kind, name, file, old, new, props, with_tests, tier):
+    tmp = tempfile.mkdtemp(prefix="aismut.")
+    vdir = "/verif/.work/selftest_out/mut_%s" % re.sub(r"[^A-Za-z0-9_.-]", "_", name)
+    os.makedirs(vdir + "/evidence", exist_ok=True)
+    shutil.copy("/verif/known_findings.txt", vdir + "/known_findings.txt")
+    try:
+        run("cd /repo && git archive HEAD | tar -x -C %s && cp -r .git %s/.git && cp Cargo.lock %s/Cargo.lock" % (tmp, tmp, tmp))
+        ok, msg = apply(tmp, file, old, new)
+        if not ok:
+            return (name, "SETUP-FAIL " + msg)
+        if with_tests:
+            r = run("cd %s && CARGO_TARGET_DIR=%s/target cargo test --offline 2>&1 | grep -E 'test result|error(\\[|:)' | head -3" % (tmp, tmp))
+            tests = r.stdout.strip().replace("\n", " | ")
+        else:
+            tests = ""
+        line = []
+        for pid in props:
+            r = run("AIS_REPO=%s /verif/bin/check %s %s" % (tmp, pid, tier), env=dict(os.environ, VERIF_DIR=vdir))
+            if "cannot build /repo" in r.stdout:
+                line.append("%s:BUILD-FAIL" % pid)
+                continue
+            fired = "VIOLATION property=%s" % pid in r.stdout
+            keys = re.findall(r"key=(\S+)", r.stdout)[:2]
+            if kind == "mutant":
+                line.append("%s:%s %s" % (pid, "FIRED" if fired else "MISSED", keys[0][:90] if keys else ""))
+            else:
+                line.append("%s:%s %s" % (pid, "FALSE-ALARM" if fired else "silent", keys[0][:90] if keys else ""))
+        return (name, "; ".join(line) + ("  [" + tests + "]" if tests else ""))
+    finally:
+        shutil.rmtree(tmp, ignore_errors=True)
+        shutil.rmtree(vdir, ignore_errors=True)
+
+
 def main():
+    from concurrent.futures import ThreadPoolExecutor
     args = [a for a in sys.argv[1:] if not a.startswith("--")]
     with_tests = "--tests" in sys.argv
+    jobs = 1
+    for a in sys.argv[1:]:
+        if a.startswith("--jobs="):
+            jobs = int(a.split("=", 1)[1])
     tier = "quick"
-    results = []
+    cases = []
     for kind, lst in (("mutant", M), ("neutral", N)):
         for (name, file, old, new, props) in lst:
             if args and not any(a in name for a in args):
                 continue
-            tmp = tempfile.mkdtemp(prefix="aismut.")
-            try:
-                run("cd /repo && git archive HEAD | tar -x -C %s && cp -r .git %s/.git && cp Cargo.lock %s/Cargo.lock" % (tmp, tmp, tmp))
-                ok, msg = apply(tmp, file, old, new)
-                if not ok:
-                    results.append((name, "SETUP-FAIL " + msg))
-                    continue
-                if with_tests:
-                    r = run("cd %s && CARGO_TARGET_DIR=%s/target cargo test --offline 2>&1 | grep -E 'test result|error(\\[|:)' | head -3" % (tmp, tmp))
-                    tests = r.stdout.strip().replace("\n", " | ")
-                else:
-                    tests = ""
-                line = []
-                for pid in props:
-                    r = run("AIS_REPO=%s /verif/bin/check %s %s" % (tmp, pid, tier), env=dict(os.environ, VERIF_DIR="/verif/.work/selftest_out"))
-                    if "cannot build /repo" in r.stdout:
-                        line.append("%s:BUILD-FAIL" % pid)
-                        continue
-                    fired = "VIOLATION property=%s" % pid in r.stdout
-                    keys = re.findall(r"key=(\S+)", r.stdout)[:2]
-                    if kind == "mutant":
-                        line.append("%s:%s %s" % (pid, "FIRED" if fired else "MISSED", keys[0][:90] if keys else ""))
-                    else:
-                        line.append("%s:%s %s" % (pid, "FALSE-ALARM" if fired else "silent", keys[0][:90] if keys else ""))
-                results.append((name, "; ".join(line) + ("  [" + tests + "]" if tests else "")))
-            finally:
-                shutil.rmtree(tmp, ignore_errors=True)
-            print(results[-1][0], "=>", results[-1][1], flush=True)
+            cases.append((kind, name, file, old, new, props, with_tests, tier))
+    results = []
+    with ThreadPoolExecutor(max_workers=jobs) as ex:
+        for res in ex.map(lambda c: one_case(*c), cases):
+            results.append(res)
+            print(res[0], "=>", res[1], flush=True)
     bad = [r for r in results if "MISSED" in r[1] or "FALSE-ALARM" in r[1] or "SETUP-FAIL" in r[1] or "BUILD-FAIL" in r[1]]
     print("%d cases, %d problems" % (len(results), len(bad)))
     return 1 if bad else 0
